@@ -4,6 +4,8 @@ package utreexo
 
 // C16 lemmas: exported position arithmetic against the closed-form geometry
 // pos(r,o,h) = 2^(h+1) - 2^(h+1-r) + o.  Full width: 64-bit positions, h <= 63.
+// Only exported functions are named here; lemmas on unexported helpers live in
+// opt_lemmas_utils.go (dropped, and reported, if a helper is renamed).
 
 func geoStart(r, h uint8) uint64 {
 	return (uint64(2) << h) - (uint64(2) << (h - r))
@@ -33,4 +35,77 @@ func LemmaParent() {
 	p := geoStart(r, h) + o
 	verifAssert(Parent(p, h) == geoStart(r+1, h)+(o>>1), "C16.Parent")
 	verifReach("C16.Parent")
+}
+
+func LemmaChildren() {
+	h, r, o := geoValid()
+	verifAssume(r >= 1)
+	p := geoStart(r, h) + o
+	l := LeftChild(p, h)
+	rc := RightChild(p, h)
+	verifAssert(l == geoStart(r-1, h)+2*o, "C16.LeftChild")
+	verifAssert(rc == geoStart(r-1, h)+2*o+1, "C16.RightChild")
+	// mutual inverse
+	verifAssert(Parent(l, h) == p && Parent(rc, h) == p, "C16.ParentOfChild")
+	verifReach("C16.Children")
+}
+
+func LemmaParentMany() {
+	h, r, o := geoValid()
+	k := verifNondetU8("k")
+	verifAssume(k <= h-r)
+	p := geoStart(r, h) + o
+	a, err := ParentMany(p, k, h)
+	verifAssert(err == nil, "C16.ParentMany.err")
+	verifAssert(a == geoStart(r+k, h)+(o>>k), "C16.ParentMany")
+	verifReach("C16.ParentMany")
+}
+
+func LemmaChildMany() {
+	h, r, o := geoValid()
+	k := verifNondetU8("k")
+	verifAssume(k <= r)
+	p := geoStart(r, h) + o
+	c, err := ChildMany(p, k, h)
+	verifAssert(err == nil, "C16.ChildMany.err")
+	verifAssert(c == geoStart(r-k, h)+(o<<k), "C16.ChildMany")
+	// and back up again
+	b, err2 := ParentMany(c, k, h)
+	verifAssert(err2 == nil && b == p, "C16.ChildManyInverse")
+	verifReach("C16.ChildMany")
+}
+
+// geoRows is ceil(log2 n) written without bits.Len64.
+func geoRowsOK(n uint64, t uint8) bool {
+	if n <= 1 {
+		return t == 0
+	}
+	// 2^(t-1) < n <= 2^t
+	return t >= 1 && t <= 64 && (t == 64 || n <= uint64(1)<<t) && n > uint64(1)<<(t-1)
+}
+
+func LemmaTreeRows() {
+	n := verifNondetU64("n")
+	verifAssert(geoRowsOK(n, TreeRows(n)), "C16.TreeRows")
+	verifReach("C16.TreeRows")
+}
+
+// RootPositions: one root per set bit of numLeaves, highest first, each at
+// pos(t, (n with bits <= t cleared) >> t).  numLeaves < 2^6 (symbolic), totalRows a parameter.
+func LemmaRootPositions() {
+	tr := uint8(verifParam("totalRows", 6))
+	n := uint64(verifNondetU8("n") & 63)
+	verifAssume(TreeRows(n) <= tr)
+	got := RootPositions(n, tr)
+	idx := 0
+	for t := 6; t >= 0; t-- {
+		if (n>>uint(t))&1 == 1 {
+			verifAssert(idx < len(got), "C16.RootPositions.len")
+			base := n &^ ((uint64(2) << uint(t)) - 1)
+			verifAssert(got[idx] == geoStart(uint8(t), tr)+(base>>uint(t)), "C16.RootPositions.pos")
+			idx++
+		}
+	}
+	verifAssert(idx == len(got), "C16.RootPositions.count")
+	verifReach("C16.RootPositions")
 }
